@@ -333,7 +333,7 @@ def main() -> int:
     rep = Report(PROP)
     t = tier()
     sd = seed()
-    n = 1000 if t == "quick" else 50000
+    n = 4000 if t == "quick" else 50000
     cases = []
     for kind in ("led", "rgb", "servo", "motor"):
         for i in range(n):
